@@ -170,7 +170,7 @@ def gen_content(rng, rich, tag):
 
 def gen_case(st, tier, flavour):
     rp, rf, rk = st.prog, st.fault, st.knob
-    if flavour == "C06" and st.sched.random() < (0.012 if tier == "thorough" else 0.006):
+    if flavour == "C06" and st.sched.random() < float(os.environ.get("VERIF_W2C_RATE") or (0.012 if tier == "thorough" else 0.006)):
         # the import state of the process is a dimension too: collect() entered in a fresh interpreter (W2c)
         from worlds import w2_cold
         return w2_cold.gen_cold(st)
